@@ -15,6 +15,10 @@ CHECKS = {
     'C02': ('worldsim', '5.2', 'verdict of run_internal vs. ground truth of injected faults (tests, layers, imports, child death, spawn failure, truncated report) under the simulated process layer, both modes'),
     'C04': ('worldsim', '5.4', 'exception injection at every test/layer phase in simulated runs; containment oracle on trace and output'),
     'C05': ('worldsim', '5.5', 'bracket automaton over testSetUp/testTearDown events of seeded simulated runs with injected outcome faults'),
+    'C03': ('worldsim', '5.3', 'executed multiset over all pids vs. reference selection model, for --list-tests / sequential / simulated -j N / resumed executions of one spec (exactly-once across processes)'),
+    'C06': ('procsim', '5.6', 'seeded and directed (all k! forced completion orders, barrier, stalls) schedules of the real resume_tests/spawn threads over tape-replaying child actors; block/ordering oracle, alive<=N invariant at every spawn, bounded-progress by structural hang detection'),
+    'C07': ('procsim', '5.7', 'channel fault injection on the simulated child processes (crash at every hook site, truncation at every report offset, noise, back-pressure, EINTR, spawn failure); delivered-report oracle, deadlock detection by the scheduler'),
+    'C11': ('worldsim', '5.11', 'simulated clocks with parent/child skew decide the default seed; order equality across list/sequential/-j N/resumed/--layer executions and reproduction from the reported seed'),
     'C12': ('worldsim', '5.12', 'printed counts/lists vs. trace ground truth, and sequential vs. simulated -j N / resumed executions of the same spec'),
     'C13': ('worldsim', '5.13', 'token attribution over the merged stdout/stderr log and stream identity monitored inside hooks, over seeded outcome histories'),
     'C16': ('worldsim', '5.16', '"nothing starts after the first bad outcome" automaton per pid over seeded simulated -x runs'),
@@ -48,6 +52,8 @@ def main():
         'engines': [
             {'name': 'worldsim', 'path': 'vsim/', 'serves_properties': sorted(p for p, v in CHECKS.items() if v[0] == 'worldsim'),
              'kind_free_text': 'deterministic simulation: real runner under a seeded baton scheduler over real threads, simulated pipes/processes/clock, generated worlds driven by a fault plan'},
+            {'name': 'procsim', 'path': 'vsim/', 'serves_properties': sorted(p for p, v in CHECKS.items() if v[0] == 'procsim'),
+             'kind_free_text': 'worldsim whose option vector creates children: scheduler decides every interleaving of parent threads and child actors, channel faults applied to the child tapes'},
         ],
         'checks': [],
         'not_applicable': [{'property_id': p, 'reason': r} for p, r in sorted(na)],
